@@ -8,8 +8,10 @@ import (
 	"io"
 	"testing"
 
+	"github.com/evanoberholster/imagemeta/exif2"
 	"github.com/evanoberholster/imagemeta/jpeg"
 	"github.com/evanoberholster/imagemeta/meta"
+	"github.com/rs/zerolog"
 )
 
 func seg(marker byte, payload []byte) []byte {
@@ -72,5 +74,39 @@ func TestConfirmJpegOffsetsAfterExif(t *testing.T) {
 		}, nil)
 	if err != nil || len(got) != 2 || int(got[1]) != want {
 		t.Errorf("offsets %v err=%v, want second = %d", got, err, want)
+	}
+}
+
+// C10/C04: the library's own Exif reader kept its stream position from the previous segment, so on a second
+// Exif segment (or on any reuse of the reader) it mis-resolved value offsets and did not consume its declared
+// length; the scanner then resumed inside the Exif payload.
+func TestConfirmSecondExifSegmentLibraryReader(t *testing.T) {
+	model := "MODEL-NAME-LONGER-THAN-FOUR\x00"
+	t1 := tiff([]ent{{0x010F, 2, 4, 0x00434241}}, new(uint32), make([]byte, 40))
+	t2 := tiff([]ent{{0x0110, 2, uint32(len(model)), 26}}, new(uint32), append([]byte(model), make([]byte, 64)...))
+	xmp := append([]byte("http://ns.adobe.com/xap/1.0/\x00"), bytes.Repeat([]byte("<x/>"), 16)...)
+	var f bytes.Buffer
+	f.Write([]byte{0xFF, 0xD8})
+	f.Write(seg(0xE1, append([]byte("Exif\x00\x00"), t1...)))
+	f.Write(seg(0xE1, append([]byte("Exif\x00\x00"), t2...)))
+	f.Write(seg(0xE1, xmp))
+	f.Write(seg(0xDB, make([]byte, 65)))
+	f.Write(make([]byte, 128))
+	ir := exif2.NewIfdReader(zerolog.Nop())
+	defer ir.Close()
+	var gotXmp []byte
+	err := jpeg.ScanJPEG(bytes.NewReader(f.Bytes()), ir.DecodeJPEGIfd, func(r io.Reader) error {
+		var e error
+		gotXmp, e = io.ReadAll(r)
+		return e
+	})
+	if err != nil {
+		t.Errorf("ScanJPEG: %v", err)
+	}
+	if ir.Exif.Make != "ABC" || ir.Exif.Model != model[:len(model)-1] {
+		t.Errorf("Make=%q Model=%q, want ABC and %q", ir.Exif.Make, ir.Exif.Model, model[:len(model)-1])
+	}
+	if !bytes.Equal(gotXmp, xmp[29:]) {
+		t.Errorf("XMP callback got %d bytes, want %d", len(gotXmp), len(xmp)-29)
 	}
 }
